@@ -25,8 +25,9 @@ import (
 type cfg = sw.SysOpts
 
 type replay struct {
-	Cfg   cfg      `json:"cfg"`
-	Trace []string `json:"trace"`
+	Cfg   cfg       `json:"cfg"`
+	Trace []string  `json:"trace"`
+	Late  *lateCase `json:"late,omitempty"`
 }
 
 func forwardable(m sw.PubMsg) bool { return sw.Forwardable(m) }
@@ -346,7 +347,7 @@ func shapeSweep(r *vk.Run) {
 		defer s.Close()
 		var trace []string
 		fail := func(err error) {
-			r.Violation("infra/shape", fmt.Sprintf("shape case %+v: %v", j, err), replay{c, trace})
+			r.Violation("infra/shape", fmt.Sprintf("shape case %+v: %v", j, err), replay{Cfg: c, Trace: trace})
 		}
 		for _, k := range []string{"rtmp", "flv", "wsflv"} {
 			if _, err := s.X.Join(k); err != nil {
@@ -378,7 +379,7 @@ func shapeSweep(r *vk.Run) {
 			return
 		}
 		for _, v := range s.Check() {
-			r.Violation("shape/"+v.Key, fmt.Sprintf("len=%d ts=%v merge=%d: %s", j.l, j.ts, j.mw, v.What), replay{c, []string{fmt.Sprintf("shape:%d:%v:%d", j.l, j.ts, j.mw)}})
+			r.Violation("shape/"+v.Key, fmt.Sprintf("len=%d ts=%v merge=%d: %s", j.l, j.ts, j.mw, v.What), replay{Cfg: c, Trace: []string{fmt.Sprintf("shape:%d:%v:%d", j.l, j.ts, j.mw)}})
 		}
 		r.Class(fmt.Sprintf("shape/len%%128=%d/ts=%x/merge=%v", j.l%128, j.ts[0]>>20, j.mw > 0))
 	})
@@ -396,6 +397,18 @@ func main() {
 	if r.ReplayIn != "" {
 		var rp replay
 		r.LoadReplay(&rp)
+		if rp.Late != nil {
+			rtmp.VerifSetWChanSize(64)
+			httpflv.SubSessionWriteChanSize = 64
+			vs, err := runLate(*rp.Late)
+			if err != nil {
+				r.Violation("infra/late-reader", err.Error(), rp)
+			}
+			for _, v := range vs {
+				r.Violation(v[:strings.IndexByte(v, ':')]+"/"+rp.Late.Kind, v, rp)
+			}
+			r.Finish()
+		}
 		queues(rp.Cfg)
 		c := seqx.Config{New: func() seqx.Sys { return newSys(rp.Cfg) }}
 		s, vs, err := seqx.Run(c, rp.Trace)
@@ -422,10 +435,10 @@ func main() {
 		st := seqx.Explore(seqx.Config{
 			New: func() seqx.Sys { return newSys(c) }, MaxDepth: depth, Workers: 16, OutOfTime: r.OutOfTime,
 			OnViolation: func(tr []string, v seqx.Viol) {
-				r.Violation(v.Key, fmt.Sprintf("[%s] after %v: %s", c.Name, tr, v.What), replay{c, tr})
+				r.Violation(v.Key, fmt.Sprintf("[%s] after %v: %s", c.Name, tr, v.What), replay{Cfg: c, Trace: tr})
 			},
 			OnInfra: func(tr []string, err error) {
-				r.Violation("infra/hang-or-nondeterminism", fmt.Sprintf("[%s] %v: %v", c.Name, tr, err), replay{c, tr})
+				r.Violation("infra/hang-or-nondeterminism", fmt.Sprintf("[%s] %v: %v", c.Name, tr, err), replay{Cfg: c, Trace: tr})
 			},
 			OnState: func(d int, fp string, tr []string) {
 				r.Class(c.Name + "|" + fp)
@@ -452,5 +465,6 @@ func main() {
 		r.NotExhaustive("internal time budget hit before the depth bound")
 	}
 	shapeSweep(r)
+	latePhase(r)
 	r.Finish()
 }
